@@ -31,8 +31,16 @@ def main():
         os.unlink(path)
     except OSError:
         pass
-    p = subprocess.run([drv], input=ops, stdout=subprocess.PIPE)
+    p = subprocess.run([drv], input=ops, stdout=subprocess.PIPE, stderr=subprocess.PIPE)
     sys.stdout.buffer.write(p.stdout)
+    # statistics of the driver (lines `STAT key value ...`) for the evidence; everything else stays on stderr
+    stats = [l for l in p.stderr.splitlines() if l.startswith(b"STAT ")]
+    rest = [l for l in p.stderr.splitlines() if not l.startswith(b"STAT ")]
+    if stats:
+        with open(os.path.join(d, "stats.txt"), "ab") as f:
+            f.write(b"\n".join(stats) + b"\n")
+    if rest:
+        sys.stderr.buffer.write(b"\n".join(rest) + b"\n")
     return p.returncode
 
 if __name__ == "__main__":
